@@ -199,6 +199,17 @@ class C02Oracle(Oracle):
             tips = [int(t["tip"][1:]) if isinstance(t, dict) else t for t in (op["tips"] if isinstance(op["tips"], list) else [op["tips"]])]
             if rows != sorted(set(rows)) or tips != sorted(set(tips)) or len(tips) != len(w):
                 return False
+        if op["op"] == "distribute":
+            # the same destination cavity named twice is accepted by the unchanged tree, but an implementation may
+            # refuse such a call outright (C01 excludes it from its own quantifier): not "valid in every other respect"
+            from ..sim.geom import flatten_f
+            try:
+                g = self.sess.geos[op["dst"]]
+                real = [g.real(w) for w in flatten_f(op["dw"])]
+            except KeyError:
+                return False
+            if len(set(real)) != len(real):
+                return False
         if op["op"] in ("aspirate", "dispense", "evo_aspirate", "evo_dispense", "distribute"):
             # a single step above the worklist max_volume or the format range is refused for that reason
             return False if self.any_above(op) else True
